@@ -249,6 +249,7 @@ func scenProducer(r *run) {
 		r.finish("infra", "generated config invalid: "+err.Error())
 	}
 	cl.onProduce = ps.onProduce
+	cl.onView = ps.recordView
 	ps.recordView()
 
 	watchdog(r, ps.onHang)
@@ -1097,7 +1098,8 @@ func (ps *prodScen) dupClass(mi *msgInfo, p *mpart, first int64, second *mrec) s
 	return strings.Join(cls, ",")
 }
 
-// orderClass explains a reordering for known-finding classification.
+// orderClass explains a reordering for known-finding classification: configuration facts plus
+// whether an error outcome had been reported before the overtaken record was written.
 func (ps *prodScen) orderClass(p *mpart) string {
 	var cls []string
 	cls = append(cls, fmt.Sprintf("retryMax=%d", ps.c.Config.RetryMax))
@@ -1110,6 +1112,21 @@ func (ps *prodScen) orderClass(p *mpart) string {
 	}
 	if nf == 0 {
 		cls = append(cls, "fault-free")
+	}
+	firstErr := int64(-1)
+	for _, mi := range ps.msgs {
+		for _, ev := range mi.events {
+			if !ev.ok && (firstErr < 0 || ev.us < firstErr) {
+				firstErr = ev.us
+			}
+		}
+	}
+	lastAppend := int64(-1)
+	if p != nil && len(p.batches) > 0 {
+		lastAppend = p.batches[len(p.batches)-1].atUs
+	}
+	if firstErr >= 0 && firstErr <= lastAppend {
+		cls = append(cls, "after-error-outcome")
 	}
 	return strings.Join(cls, ",")
 }
